@@ -93,6 +93,7 @@ func c14Fanout(c *Ctx) {
 	t0 := time.Now()
 	var lines, want []string
 	for round := 0; round < rounds; round++ {
+		linesAt, wantAt := len(lines), len(want) // a round that cannot be judged is taken out of the protocol again
 		// observers are fresh every round (their mailboxes start empty)
 		nobs := 1 + c.Rng.Intn(3)
 		var obs []gen.PID
@@ -162,10 +163,24 @@ func c14Fanout(c *Ctx) {
 		core.RouteNodeDown(tmNode(down), nil)
 		// every observer handles its urgent (exit) and system (down) queues before the main queue: a command through the
 		// main queue is a barrier
+		barrier := true
 		for _, h := range obs {
-			if !c14do(node, h, 3*time.Second, func(a *c14actor) {}) {
-				r.Count("inconclusive.fanout-barrier")
+			if !c14do(node, h, 20*time.Second, func(a *c14actor) {}) {
+				barrier = false
 			}
+		}
+		if !barrier {
+			// an observer did not answer within 20 s: nothing can be said about what it received; stop this part
+			r.Count("inconclusive.fanout-barrier")
+			r.Note("C14 fan-out: an observer did not pass the barrier; part stopped after %d rounds", round)
+			for _, h := range obs {
+				node.Kill(h)
+			}
+			for _, h := range holders {
+				tm.CleanupConsumer(h.pid)
+			}
+			lines, want = lines[:linesAt], want[:wantAt]
+			break
 		}
 		var got []string
 		for _, h := range obs {
